@@ -43,6 +43,13 @@ def natural(it, reverse=False):
     return sorted(list(it), key=lambda x: (len(x), x) if isinstance(x, str) else (0, x), reverse=reverse)
 
 
+class FalsyKey(dict):
+    """A callable key function whose truth value is False (an empty memoising dict with __call__)."""
+
+    def __call__(self, e):
+        return e['v']
+
+
 def sort_fns(name):
     if name == 'natural':
         return natural
@@ -125,7 +132,7 @@ def check(case):
             if case['keyless']:
                 out = ds.sort(reverse=rev_arg, **kw)
             else:
-                out = ds.sort(lambda e: e['v'], reverse=rev_arg, **kw)
+                out = ds.sort(FalsyKey() if case.get('falsy_key') else (lambda e: e['v']), reverse=rev_arg, **kw)
             got = list(out)
         except Exception as e:
             raise Violation('sort-raised', f'{desc}\n{type(e).__name__}: {e}')
@@ -200,6 +207,17 @@ def check(case):
     got = {k: [e['id'] for e in v] for k, v in lists.items() if not is_nan(k)}
     if got != want:
         raise Violation('groups-wrong', f'{desc}\ngroups {got}\nexpected {want}')
+    # asking for a group that does not exist is an error and leaves the partition as it is
+    names_before = [repr(k) for k in groups.keys()]
+    try:
+        ghost = groups['no-such-group-id']
+    except KeyError:
+        pass
+    else:
+        raise Violation('groups-absent-id-answered', f'{desc}\ngroups[<absent id>] returned {ghost!r}')
+    if [repr(k) for k in groups.keys()] != names_before:
+        raise Violation('groups-absent-id-answered', f'{desc}\nlooking up an absent id changed the groups: '
+                                                     f'{list(groups.keys())}')
     # an id that is not equal to itself names no single group; its examples must still each lie in exactly one group
     # (under such an id), in their relative order
     got_nan = [[e['id'] for e in v] for k, v in lists.items() if is_nan(k)]
@@ -246,6 +264,8 @@ def st_case(draw):
             case['unsigned'] = draw(st.integers(1, 3))
         elif not case['keyless'] and draw(st.integers(0, 3)) == 0:
             case['listkeys'] = True
+        if not case['keyless'] and draw(st.integers(0, 4)) == 0:
+            case['falsy_key'] = True
     else:
         palette = draw(st.lists(st.integers(0, len(GIDS) - 1), min_size=1, max_size=4))
         case['gids'] = draw(st.lists(st.sampled_from(palette), min_size=8, max_size=8))
